@@ -42,6 +42,7 @@ import (
 
 	"github.com/apache/arrow-go/v18/arrow"
 	"github.com/apache/arrow-go/v18/arrow/array"
+	"github.com/apache/arrow-go/v18/arrow/memory"
 	"github.com/klauspost/compress/zstd"
 
 	"github.com/Query-farm/vgi-rpc-go/vgirpc"
@@ -624,7 +625,7 @@ func flipB64(tok string, rng *rand.Rand) string {
 }
 
 var contShapes = []string{"valid", "valid", "no-call-token", "no-state", "no-batch", "two-batches", "token-on-second", "wrong-schema", "castable", "zero-cols", "state-bitflip",
-	"state-truncated", "state-garbage", "state-empty", "swap", "call-garbage", "call-bitflip", "cancel", "location-ok", "location-garbage", "nulls", "huge-meta", "shm-keys", "dict-col"}
+	"state-truncated", "state-garbage", "state-empty", "swap", "call-garbage", "call-bitflip", "cancel", "location-ok", "location-garbage", "nulls", "huge-meta", "shm-keys", "dict-col", "dict-oob", "dict-bad-offsets", "utf8-bad-offsets"}
 
 // continuationBody builds an /exchange request body around minted tokens.
 func continuationBody(rng *rand.Rand, shape, state, call string) (body []byte, ext map[string][]byte) {
@@ -675,6 +676,12 @@ func continuationBody(rng *rand.Rand, shape, state, call string) (body []byte, e
 	case "dict-col":
 		schema = arrow.NewSchema([]arrow.Field{{Name: "v", Type: &arrow.DictionaryType{IndexType: arrow.PrimitiveTypes.Int8, ValueType: arrow.BinaryTypes.String}}}, nil)
 		in = gen.Batch(rng, schema, gen.BatchOpt{Rows: 2, FixedRows: true})
+	case "dict-oob":
+		schema, in = dictOOBBatch(rng)
+	case "dict-bad-offsets":
+		schema, in = badOffsetsBatch(true)
+	case "utf8-bad-offsets":
+		schema, in = badOffsetsBatch(false)
 	case "zero-cols":
 		schema = empty
 		in = array.NewRecordBatch(empty, nil, 3)
@@ -727,6 +734,57 @@ func continuationBody(rng *rand.Rand, shape, state, call string) (body []byte, e
 		recs = append(recs, in, gen.WithMeta(in, ks, vs))
 	}
 	return gen.IPCBytes(schema, recs...), ext
+}
+
+// dictOOBBatch is an exchange input whose only column "v" is dictionary-encoded
+// with an index that points outside its dictionary. The declared input type is
+// float64, so the server has to cast it.
+func dictOOBBatch(rng *rand.Rand) (*arrow.Schema, arrow.RecordBatch) {
+	dt := &arrow.DictionaryType{IndexType: arrow.PrimitiveTypes.Int8, ValueType: arrow.BinaryTypes.String}
+	ib := array.NewInt8Builder(gen.Mem)
+	ib.AppendValues([]int8{0, int8(2 + rng.IntN(100)), 1}, nil)
+	db := array.NewStringBuilder(gen.Mem)
+	db.AppendValues([]string{"1.5", "2.5"}, nil)
+	idx, dict := ib.NewArray(), db.NewArray()
+	ib.Release()
+	db.Release()
+	da := array.NewDictionaryArray(dt, idx, dict)
+	idx.Release()
+	dict.Release()
+	schema := arrow.NewSchema([]arrow.Field{{Name: "v", Type: dt}}, nil)
+	rec := array.NewRecordBatch(schema, []arrow.Array{da}, 3)
+	da.Release()
+	return schema, rec
+}
+
+// badOffsetsBatch is an exchange input whose utf8 values (directly, or as the
+// dictionary of a dictionary column) have offsets that run backwards: arrow-go
+// accepts the array (it only looks at the last offset when it loads a batch),
+// reading value 0 indexes outside the data buffer.
+func badOffsetsBatch(asDictionary bool) (*arrow.Schema, arrow.RecordBatch) {
+	offsets := memory.NewBufferBytes(arrow.Int32Traits.CastToBytes([]int32{0, 40, 3}))
+	data := memory.NewBufferBytes([]byte("1.52.5"))
+	sd := array.NewData(arrow.BinaryTypes.String, 2, []*memory.Buffer{nil, offsets, data}, nil, 0, 0)
+	strs := array.NewStringData(sd)
+	sd.Release()
+	if !asDictionary {
+		schema := arrow.NewSchema([]arrow.Field{{Name: "v", Type: arrow.BinaryTypes.String}}, nil)
+		rec := array.NewRecordBatch(schema, []arrow.Array{strs}, 2)
+		strs.Release()
+		return schema, rec
+	}
+	dt := &arrow.DictionaryType{IndexType: arrow.PrimitiveTypes.Int8, ValueType: arrow.BinaryTypes.String}
+	ib := array.NewInt8Builder(gen.Mem)
+	ib.AppendValues([]int8{0, 1}, nil)
+	idx := ib.NewArray()
+	ib.Release()
+	da := array.NewDictionaryArray(dt, idx, strs)
+	idx.Release()
+	strs.Release()
+	schema := arrow.NewSchema([]arrow.Field{{Name: "v", Type: dt}}, nil)
+	rec := array.NewRecordBatch(schema, []arrow.Array{da}, 2)
+	da.Release()
+	return schema, rec
 }
 
 func mkValsOrTick(schema *arrow.Schema, mkVals func(int, bool) arrow.RecordBatch) arrow.RecordBatch {
